@@ -8,7 +8,7 @@ from hypothesis import strategies as st
 
 from .. import c13_payloads as payloads
 from ..harness import CaseResult, Ctx, enum_run, hyp_run
-from ..simutil import exc_msg, exc_sig, lan_cfg, new_game, norm_state
+from ..simutil import exc_msg, exc_sig, lan_cfg, new_game
 
 ID = "C13"
 WORKERS = {"quick": 8, "thorough": 16}
@@ -59,6 +59,19 @@ SERVICE_SRC = {"start": "STOPPED", "stop": "RUNNING", "pause": "RUNNING", "resum
                "enable": "DISABLED", "fix": "RUNNING", "scan": "RUNNING"}
 SERVICE_DST = {"start": "RUNNING", "stop": "STOPPED", "pause": "PAUSED", "resume": "RUNNING", "restart": "RESTARTING",
                "enable": "STOPPED", "fix": "RUNNING", "scan": "RUNNING", "disable": "DISABLED"}
+
+
+def norm_state(x: Any) -> Any:
+    """Order-insensitive snapshot of a describe_state() tree, for before/after comparison inside one run."""
+    if isinstance(x, dict):
+        return tuple(sorted(((str(k), norm_state(v)) for k, v in x.items()), key=lambda t: t[0]))
+    if isinstance(x, (list, tuple)):
+        return tuple(norm_state(v) for v in x)
+    if isinstance(x, (set, frozenset)):
+        return tuple(sorted(repr(v) for v in x))
+    if isinstance(x, (str, int, float, bool)) or x is None:
+        return x
+    return repr(x)
 
 
 def _am():
